@@ -187,6 +187,16 @@ PROPS["C12"] = {
     "assumptions": ["strace and ptrace are available in the sandbox (otherwise part C is reported inconclusive)"],
 }
 
+PROPS["C20"] = {
+    "test": "TestC20", "level": "exploration", "registered": True, "engine": "sim+binary", "need_bin": True,
+    "shards_quick": 8, "shards_thorough": 16, "timeout": 1200,
+    "technique": "black-box runtime check of the built binary: decision tables enumerated, outcomes observed from logs, a connection-counting fake socket, exit statuses and the printed table",
+    "level_text": "The binary built from the working tree (repository toolchain) is exercised as a user would. (1) `run`: for http-port, https-port and debug the full table {flag absent/present} x {KAMAL_PROXY_<NAME> absent/valid/malformed} x {<NAME> absent/valid/malformed} (63 cases incl. an explicit --debug=false) is run and the effective value is read from the 'Server started' record, or from the bind error when a privileged default cannot be bound, and from the presence of debug-level records. (2) `deploy` validation: all 192 combinations (thorough; a 60-case subset incl. every TLS combination in quick) of --tls, --host, --path-prefix {none,/,/api}, the two body limits and the two buffering flags are run against a fake unix socket that counts connections: refused combinations must exit non-zero without a connection, valid ones must connect. (3) exit status of every client command for success, every server-side error and a proxy that is not running. (4) after random histories `list` rows (ANSI stripped) must equal a model of the deployed services (hosts, paths, targets, state, TLS).",
+    "level_note": "Trusted: the decision table written from the statement; the fake socket. The run-option and exit-code tables are enumerated completely in both tiers; the deploy-validation table completely in the thorough tier.",
+    "rule": "a class is one row of a decision table (run option x source combination; validation flag combination; command x outcome) or a (services, history length) pair for list",
+    "assumptions": ["free TCP ports can be found; privileged default ports may or may not be bindable (both handled)"],
+}
+
 ENGINES = [
     {"name": "sim+binary", "path": "/verif/harness (c12_test.go, c20_test.go, procs_test.go)", "kind_free_text": "the real kamal-proxy binary built from the working tree with the repository's own toolchain, run with scratch HOME/XDG_RUNTIME_DIR against real HTTP targets; SIGKILL at hook points (VERIF_CRASH) or injected by strace; CLI driven as a user would", "serves_properties": ["C12", "C20"]},
     {"name": "sim", "path": "/verif/harness (world_test.go)", "kind_free_text": "real internal/server code in a testing/synctest bubble (virtual time) on an in-memory network with scripted fake targets and hook-placed delays; monitors judge recorded events", "serves_properties": []},
